@@ -212,6 +212,9 @@ var replyPayloads = []string{
 	`<error/>`,
 	`<query xmlns="jabber:iq:roster"/>`,
 	`<x xmlns="http://jabber.org/protocol/muc#user"><item affiliation="member" role="participant"/><status code="110"/></x>`,
+	`<fin xmlns="urn:xmpp:mam:2" complete="true"><!-- c --></fin>`,
+	`<fin xmlns="urn:xmpp:mam:2"><a></b></fin>`,
+	`<error type="cancel"><?pi x?><item-not-found xmlns="` + nsStanza + `"/></error>`,
 }
 
 // ------------------------------------------------------------------ case
@@ -317,7 +320,7 @@ func genACase(t *rapid.T) *acase {
 				"presence": `<presence` + ta + ` id="$ID" from="` + roomMe + `">` + s.payload + `</presence>`,
 				"message":  `<message from="` + peerFull + `"><received xmlns="urn:xmpp:receipts" id="$ID"/>` + s.payload + `</message>`,
 			}
-			if rapid.IntRange(0, 3).Draw(t, "rmut") == 0 {
+			if rapid.IntRange(0, 3).Draw(t, "rmut") == 0 && wellFormed(s.payload) && !strings.Contains(s.payload, "<!--") && !strings.Contains(s.payload, "<?") {
 				for _, k := range []string{"iq", "presence", "message"} {
 					n := lit(s.forms[k])
 					s.muts = append(s.muts, mutate(t, n))
